@@ -107,7 +107,10 @@ theorem spec_wire (p : PduDesc) (s : Spec) (h : specOK p s = true) :
 
 /-- PDU types whose layout deviates from the document (known finding, see known-findings.json):
     SMGP 3.0.3 §5.2.2.5.2 defines Active_Test_Resp without a body, the library writes and expects
-    one reserved octet. -/
+    one reserved octet.  (The two SMPP response types whose body is present only when
+    command_status is zero — SMPP 3.4 §4.1.2, §4.4.2 — are *not* deviations of the encoder's layout: the
+    tables describe the layout with its body, `C02_bytes_are_spec` holds for them, and the library writing
+    that body also for a non-zero status is an open finding reported by the correspondence run.) -/
 def deviations : List String := ["smgp30.ActiveTestResp"]
 
 def tableFor (p : PduDesc) : Bool :=
